@@ -5,6 +5,7 @@ import SV.LRU.Proofs
 import SV.GenProofs.LRU
 import SV.LRU.RefSpec
 import SV.LRU.SimpleLruLib
+import SV.LRU.CapacityLib
 namespace SV.Props.C15
 open SV SV.LRU
 
@@ -125,5 +126,29 @@ theorem library_lru_add_evicts_least_recent (c : Lib.LRU) (k v : Bytes) (h : Lib
     ((c.add k v).2.1 = true → ∃ o, Lib.DL.back c.evictList = some o ∧ (c.add k v).2.2 = [(o.key, o.val)] ∧
         c.keys.head? = some o.key ∧ (c.add k v).1.keys = c.keys.tail ++ [k] ∧
         (c.add k v).1.contains o.key = false) := Lib.lib_add_evicts_lru c k v h
+
+/-! ### the size-bounded LRU's two structures and its byte counter are not assumed coherent (SV/LRU/CapacityLib.lean:
+    `items` map ↦ list element, `evictList`, `currentCapacityInBytes` transcribed from capacityLRUCache.go) -/
+/-- for every capacity pair and every history the faithful model produces the trace of the reference specification and ends
+    coherent (same keys in map and list, counter = sum of the linked sizes, sizes ≥ 0, within limits or a single entry) -/
+theorem two_structure_sized_lru_refines_reference (size maxBytes : Nat) (ops : List LOp) :
+    SV.LRU.runTrace CapLib.LCap.stepL CapLib.LCap.obsL (CapLib.LCap.new size maxBytes) ops
+      = SV.LRU.runTrace Ref.step Ref.obs (Ref.init size (some (maxBytes : Int))) ops ∧
+    (SV.LRU.runFinal CapLib.LCap.stepL (CapLib.LCap.new size maxBytes) ops).abs.toRef
+      = SV.LRU.runFinal Ref.step (Ref.init size (some (maxBytes : Int))) ops ∧
+    CapLib.Inv (SV.LRU.runFinal CapLib.LCap.stepL (CapLib.LCap.new size maxBytes) ops) :=
+  CapLib.lib_cap_refines_reference size maxBytes ops
+/-- directly on the faithful model: never more than `size` entries (list and map alike) -/
+theorem two_structure_sized_lru_len_bound (size maxBytes : Nat) (hs : 1 ≤ size) (ops : List CapLib.Op) :
+    (CapLib.finalState CapLib.LCap.step (CapLib.LCap.new size maxBytes) ops).len ≤ size ∧
+    (CapLib.finalState CapLib.LCap.step (CapLib.LCap.new size maxBytes) ops).items.length ≤ size :=
+  CapLib.lib_len_le_size size maxBytes hs ops
+/-- the byte counter (and `SizeInBytesContained`) is within the byte capacity unless a single oversized entry is held, and equals
+    the sum of the resident sizes -/
+theorem two_structure_sized_lru_bytes_bound (size maxBytes : Nat) (ops : List CapLib.Op) :
+    let c := CapLib.finalState CapLib.LCap.step (CapLib.LCap.new size maxBytes) ops
+    (c.cur ≤ (maxBytes : Int) ∨ c.len = 1) ∧ (c.sizeInBytesContained ≤ maxBytes ∨ c.len = 1) ∧
+    (c.sizeInBytesContained : Int) = (c.evictList.map (·.sz)).sum :=
+  CapLib.lib_bytes_le_max_unless_single size maxBytes ops
 
 end SV.Props.C15
